@@ -913,8 +913,78 @@ def judge_cors(ops, impl, part):
                     bad.append((i, 'Vary names %r, which is not a request header the answer depends on' % v))
     return bad
 
+def split_top(s, sep):
+    out = []; depth = 0; cur = ''
+    for ch in s:
+        if ch == '(':
+            depth += 1
+        elif ch == ')':
+            depth -= 1
+        if ch == sep and depth == 0:
+            out.append(cur); cur = ''
+        else:
+            cur += ch
+    out.append(cur)
+    return out
+
+def eval_matcher(expr, path, accept_raw, accept_params, ps):
+    """reference semantics of the bundled matchers and combinators for hosts-free expressions:
+    returns (accepted, path, params); a rejecting matcher returns its inputs unchanged"""
+    if expr == 'any':
+        return True, path, ps
+    if expr.startswith('pv:'):
+        param, vs = expr[3:].split(':')
+        vs = [] if vs == '%-' else [norm_version(decB(x)) for x in vs.split('+')]
+        for v in vs:
+            if path.startswith(v):
+                nps = dict(ps)
+                if decB(param):
+                    nps[decB(param)] = v[:-1]
+                return True, path[len(v)-1:], nps
+        return False, path, ps
+    if expr.startswith('hv:'):
+        param, key, vs = expr[3:].split(':')
+        key = decB(key) or b'version'
+        vs = [] if vs == '%-' else [decB(x) for x in vs.split('+')]
+        if accept_raw != b'' and accept_params is not None and accept_params.get(key, b'') in vs:
+            nps = dict(ps)
+            if decB(param):
+                nps[decB(param)] = accept_params.get(key, b'')
+            return True, path, nps
+        return False, path, ps
+    if expr.startswith('and(') or expr.startswith('or('):
+        inner = expr[expr.index('(')+1:-1]
+        members = split_top(inner, ';') if inner else []
+        if expr.startswith('and('):
+            p, q = path, ps
+            for m in members:
+                ok, p, q = eval_matcher(m, p, accept_raw, accept_params, q)
+                if not ok:
+                    return False, path, ps      # a rejecting And leaves no trace
+            return True, p, q
+        for m in members:
+            ok, p, q = eval_matcher(m, path, accept_raw, accept_params, ps)
+            if ok:
+                return True, p, q
+        return False, path, ps
+    raise ValueError(expr)
+
 def judge_c13(ops, impl):
     bad = []
+    for i, (line, obs) in enumerate(zip(ops, impl)):
+        toks = line.split()
+        if toks and toks[0] == 'match' and obs.startswith('match ') and 'hosts:' not in toks[1]:
+            hdrs = dict(decM(toks[5]))
+            mp = None if toks[6] == '%!' else dict(decM(toks[6]))
+            try:
+                ok, p, q = eval_matcher(toks[1], decB(toks[3]), hdrs.get(b'Accept', b''), mp, dict(decM(toks[7])))
+            except Exception:
+                continue
+            f = fields(obs)
+            got = (obs.split(' ')[1] == '1', decB(f['path']), dict(decM(f['params'])))
+            if got != (ok, p, q):
+                bad.append((i, 'matcher %s on path %r: got accepted=%s path=%r params=%r, the combinators prescribe accepted=%s path=%r params=%r'
+                            % (toks[1], decB(toks[3]), got[0], got[1], got[2], ok, p, q)))
     for i, toks, obs, w in walk(ops, impl):
         if toks[0] == 'group-names' and obs.startswith('names '):
             names = decL(obs[6:])
@@ -1284,6 +1354,16 @@ def judge_c07(ops, impl):
     without its decoy lines by bin/check; here: OPTIONS * on a brand-new router)"""
     bad = []
     fresh = {}
+    rules = {}      # hosts instance -> rules registered on THAT instance
+    for i, (line, obs) in enumerate(zip(ops, impl)):
+        t = line.split()
+        if t and t[0] == 'hosts':
+            rules[int(t[1])] = set()
+        elif t and t[0] == 'hosts-icpt' and int(t[1]) in rules:
+            if obs == 'reject:dup-interceptor' and decB(t[2]) not in rules[int(t[1])]:
+                bad.append((i, 'RegisterInterceptor(%r) on this Hosts is refused as already existing although only ANOTHER instance registered it' % decB(t[2])))
+            elif obs == 'ok':
+                rules[int(t[1])].add(decB(t[2]))
     for i, toks, obs, w in walk(ops, impl):
         if toks[0] == 'router' and obs == 'ok':
             fresh[int(toks[1])] = True
